@@ -77,7 +77,9 @@ func c20Spec() *core.Spec {
 			nn.Action, nn.ActionSource = c20Action(name + ".action")
 			s.Nodes[name] = nn
 		default:
-			s.Nodes[name] = &core.Node{Branches: &core.Branches{Branches: []*core.Branch{{Target: "@v"}, {Target: name}}}}
+			// (this node may be called "_v": a name that differs from the variable target "@v" only in punctuation)
+			nm := []string{name, "_v"}[verif.Choose(name+".name", 2)]
+			s.Nodes[nm] = &core.Node{Branches: &core.Branches{Branches: []*core.Branch{{Target: "@v"}, {Target: nm}}}}
 		}
 	}
 	return s
